@@ -142,6 +142,13 @@ def check_mask(cfg, mask, viol, V):
     x0, x1 = int(np.ceil(nx / 2 - cx / 2)), int(np.floor(nx / 2 + cx / 2))
     if y1 > y0 and x1 > x0 and not b[y0:y1, x0:x1].all():
         V("calibration-region", "calibration block [%d:%d, %d:%d] not fully sampled (%d missing)" % (y0, y1, x0, x1, int((~b[y0:y1, x0:x1]).sum())))
+    elif cy > 0 and cx > 0 and cy <= ny and cx <= nx:
+        # the calibration region has cy x cx points: for an odd extent on an even axis the centring is ambiguous by one
+        # sample, but SOME centred placement of the full-size block must be fully sampled
+        ys = {int(np.floor(ny / 2 - cy / 2)), int(np.ceil(ny / 2 - cy / 2))}
+        xs = {int(np.floor(nx / 2 - cx / 2)), int(np.ceil(nx / 2 - cx / 2))}
+        if not any(a >= 0 and c_ >= 0 and a + cy <= ny and c_ + cx <= nx and b[a:a + cy, c_:c_ + cx].all() for a in ys for c_ in xs):
+            V("calibration-region", "no centred %dx%d block is fully sampled (calibration region smaller than requested)" % (cy, cx))
     if cfg["crop"]:
         yy, xx = np.mgrid[:ny, :nx]
         xr = np.maximum(np.abs(xx - nx / 2) - cx / 2, 0)
